@@ -104,7 +104,7 @@ async function workerMain(id, tier, shard, nshards, seed) {
     const log = st.detLog.slice().reverse();
     for (let k = 0; k < log.length; k += BATCH) {
       const part = log.slice(k, k + BATCH);
-      const resps = await d2.requestAll(part.map((e) => check.requests(e.c)[0]));
+      const resps = await d2.requestAll(part.map((e) => (check.secondPassRequest ? check.secondPassRequest(e.c) : check.requests(e.c)[0])));
       st.evaluations += part.length;
       part.forEach((e, i) => {
         const det = check.detOf(resps[i]);
